@@ -230,7 +230,7 @@ func worldSessions(w *World) {
 			}
 			// work-connection requests for the run id go to the newest session only: a work connection
 			// offered with the run id must be started for the new session's proxies only (checked by probeOwner above)
-		case k < 18: // several re-logins at once
+		case k < 18 && k >= 17: // several re-logins at once
 			var mine []string
 			for n, o := range owner {
 				if o == s {
@@ -289,6 +289,65 @@ func worldSessions(w *World) {
 				} else {
 					owner[name] = s
 					probeOwner(name, "after-concurrent-relogin")
+				}
+			}
+		case k < 19: // the connection drops while registrations are still in flight
+			var free []string
+			for _, n := range names {
+				if owner[n] == nil {
+					free = append(free, n)
+				}
+			}
+			if len(free) == 0 {
+				continue
+			}
+			k := r.Range(1, len(free))
+			sent := free[:k]
+			hist("%s sends %v and drops at once", s.c.Name, sent)
+			w.Probe("sessions.drop_during_registration")
+			for _, n := range sent {
+				s.c.Send(tNewProxy, M{"proxy_name": n, "proxy_type": "tcp", "remote_port": portOfName(n)})
+			}
+			if d := r.Intn(4); d > 0 {
+				time.Sleep(time.Duration(d) * time.Millisecond)
+			}
+			s.c.Drop()
+			s.live = false
+			var held []string
+			for n, o := range owner {
+				if o == s {
+					held = append(held, n)
+					delete(owner, n)
+				}
+			}
+			// the end of the session is not acknowledged by any message: give the teardown a bounded time
+			if !w.WaitUntil(5*time.Second, 50*time.Millisecond, func() bool {
+				b := env.frpsTCPPorts()
+				for _, n := range held {
+					if b[portOfName(n)] {
+						return false
+					}
+				}
+				return true
+			}) {
+				viol("ownership", "proxies-survive-disconnect", "proxies %v still bound 5 s after their session disconnected; history: %v", held, history)
+			}
+			// whatever became of the in-flight registrations, the names are free again shortly after the session ended
+			ns := newLogin("ux")
+			w.Check("C12.names-free-after-drop-during-registration")
+			deadline := w.Net.Now() + 8*time.Second
+			for _, n := range sent {
+				for {
+					rr, got := ns.c.register(M{"proxy_name": n, "proxy_type": "tcp", "remote_port": portOfName(n)})
+					if got && mstr(rr, "error") == "" {
+						owner[n] = ns
+						break
+					}
+					if w.Net.Now() > deadline {
+						viol("ownership", "name-blocked-by-dead-session", "session %s sent NewProxy for %s and dropped; 8 s later the name still cannot be registered: %v; history: %v", s.c.Name, n, rr, history)
+						break
+					}
+					time.Sleep(250 * time.Millisecond)
 				}
 			}
 		default: // disconnect for good, at an arbitrary point
